@@ -67,16 +67,29 @@ def dynamic_evaluate(evaluate_fn: Optional[Callable[[base.HyperValue], Any]],
   if exit_fn is not None and not callable(exit_fn):
     raise ValueError(
         f'\'exit_fn\' must be a callable object. Encountered: {exit_fn!r}.')
-  old_evaluate_fn = base.get_dynamic_evaluate_fn()
+  # Save the setting of the store that this scope modifies (the thread-local
+  # value for `per_thread`, otherwise the process-level one), so leaving the
+  # scope restores exactly what was there, including 'not set'.
+  tls_key = base._TLS_KEY_DYNAMIC_EVALUATE_FN  # pylint: disable=protected-access
+  had_thread_local = per_thread and utils.thread_local_has(tls_key)
+  if per_thread:
+    old_evaluate_fn = utils.thread_local_get(tls_key, None)
+  else:
+    old_evaluate_fn = base._global_dynamic_evaluate_fn  # pylint: disable=protected-access
+  base.set_dynamic_evaluate_fn(evaluate_fn, per_thread)
   has_errors = False
   try:
-    base.set_dynamic_evaluate_fn(evaluate_fn, per_thread)
     yield yield_value
   except Exception:
     has_errors = True
     raise
   finally:
-    base.set_dynamic_evaluate_fn(old_evaluate_fn, per_thread)
+    if not per_thread:
+      base.set_dynamic_evaluate_fn(old_evaluate_fn, per_thread=False)
+    elif had_thread_local:
+      utils.thread_local_set(tls_key, old_evaluate_fn)
+    else:
+      utils.thread_local_del(tls_key)
     if not has_errors and exit_fn is not None:
       exit_fn()
 
